@@ -204,3 +204,7 @@ EXTRA["C10"] = EXTRA.get("C10", []) + [
     M("out-update-overwrites-redeem-script", "psbt.py", "            self.redeem_script = self.redeem_script or redeem_lookup.get(\n                script_pubkey.commands[1]\n            )\n            # if no RedeemScript exists, we can't update, so return\n",
       "            self.redeem_script = redeem_lookup.get(\n                script_pubkey.commands[1]\n            )\n            # if no RedeemScript exists, we can't update, so return\n", ["C10.28"], "output updater forgets the attached RedeemScript (F46 undone)"),
 ]
+
+EXTRA["C12"] = EXTRA.get("C12", []) + [
+    M("leaf-script-reencoded", "witness.py", "            tap_script.raw = raw_tap_script\n", "            pass\n", ["C12.22"], "leaf script hashed in its minimal re-encoding (F47 undone)"),
+]
